@@ -415,9 +415,10 @@ def r8(ctx, rep):
             n_sites += 1
             owner = cg.owner_fn(fid)["path"]
             key = f"discard:{owner}:{m}"
-            seen_rev[(r["file"], m)] = seen_rev.get((r["file"], m), 0) + 1
-            rv = DISCARD_REVIEWED.get((r["file"], m))
-            if rv and seen_rev[(r["file"], m)] <= rv[0]:
+            fam = "is_ok" if m == "is_err" else m        # the two polarities of the same test: neither consumes the Result
+            seen_rev[(r["file"], fam)] = seen_rev.get((r["file"], fam), 0) + 1
+            rv = DISCARD_REVIEWED.get((r["file"], fam))
+            if rv and seen_rev[(r["file"], fam)] <= rv[0]:
                 rep.ok(f"discard:{r['file'].split('/')[-1]}:{m}", {"reviewed": rv[1]})
             else:
                 rep.bad(key, f"`.{m}()` on `{recv[:110]}` in {owner} throws the compiler's error away: a program that should be rejected (unknown column, ambiguous name) continues on a fallback path",
@@ -523,7 +524,26 @@ def r11(ctx, rep):
     loops = [n for n in walk(f["body"]) if n.get("k") == "for" and any(x.get("k") == "mcall" and x["m"] == "pop_front" for x in walk(n["body"]))]
     bounds = [show(n.get("e", n.get("iter")), maxdepth=8) for n in loops]
     want = [f"0..{x}.len()" for x in pre] + [f"(0..{x}.len())" for x in pre]
-    rep.check(len(pre) == 1 and len(loops) == 1 and bounds[0].replace(" ", "") in [w.replace(" ", "") for w in want], "strip-only-prepended",
+    ok_bound = len(pre) == 1 and len(loops) == 1 and bounds[0].replace(" ", "") in [w.replace(" ", "") for w in want]
+    if not loops and len(pre) == 1:
+        # the same bound as a countdown: `let mut n = <prepended>.len(); while n > 0 && .. { ..pop_front..; n -= 1; }`
+        wl = [n for n in walk(f["body"]) if n.get("k") == "while" and any(x.get("k") == "mcall" and x["m"] == "pop_front" for x in walk(n["body"]))]
+        if len(wl) == 1:
+            import guards
+            w = wl[0]
+            for cj in guards.conjuncts(w["c"]) if hasattr(guards, "conjuncts") else [w["c"]]:
+                t = show(cj).replace(" ", "").replace("(", "").replace(")", "")
+                m = re.fullmatch(r"(\w+)(>0|!=0)|0<(\w+)", t)
+                if not m:
+                    continue
+                ctr = m.group(1) or m.group(3)
+                inits = [st for st in walk(f["body"]) if st.get("k") == "local" and st["pat"].get("k") == "p_ident" and st["pat"]["n"] == ctr and st.get("init") is not None]
+                writes = [x for x in walk(f["body"]) if (x.get("k") == "assign" and show(x["lhs"]) == ctr) or (x.get("k") == "bin" and x["op"].endswith("=") and x["op"] not in ("==", "!=", "<=", ">=") and show(x["lhs"]) == ctr)]
+                top_dec = [st for st in w["body"]["s"] if st.get("k") == "bin" and st["op"] == "-=" and show(st["lhs"]) == ctr and show(st["rhs"]) == "1"]
+                if len(inits) == 1 and show(inits[0]["init"]).replace(" ", "") == f"{pre[0]}.len()" and len(writes) == 1 and len(top_dec) == 1 \
+                        and not any(x.get("k") == "continue" for x in walk(w["body"])):
+                    ok_bound, loops, bounds = True, wl, [f"{ctr} = {pre[0]}.len(); while {t}"]
+    rep.check(ok_bound, "strip-only-prepended",
               f"resolve_ident prepends `{pre}` and strips one leading segment per retry in a loop over `{bounds}`: the bound must be the length of what was prepended. With the length of the whole "
               "path the user's own qualifier is stripped too: `select {t.b}` after `select {a} | join u (==a)` resolves to `u.b`", file=f["file"], line=f["l"], fn=f["path"])
 
